@@ -411,6 +411,9 @@ def _(e, st, raw, n, a, m):
     if norm_ty(src) == norm_ty(dst): return [(T, a[0])]
     if dst == 'f64' and src in INT_TYPES: return [(T, int_to_f64(a[0], src))]
     if dst.endswith('Decimal') and src in INT_TYPES: return [(T, dec_new(a[0], 0))]
+    if src in INT_TYPES and dst in INT_TYPES:
+        # lossless widening conversions only (From between integer types exists only where every value fits)
+        return [(T, a[0])]
     raise Unsupported('Into/From %s -> %s' % (src, dst))
 
 
